@@ -21,15 +21,15 @@ import (
 
 type cOp struct {
 	T string // init | req | roots | sendInitialized | terminate | restart | close
-	E string // init: ok | netErr | http500 | rpcErr | badResult | dropNotif
+	E string // init: ok | netErr | http500 | rpcErr | badResult | dropNotif | noAnswer (the model's environment; with S set, the one S falls into)
 	//             close: "" | dead (stdio: the child was killed and reaped first) | netErr (HTTP kinds: the server is gone, every
 	//             round trip is refused) | brokenStream (legacy SSE: the server ended the event stream first)
 	//             terminate: "" | del500 (the DELETE is answered 500) | netErr
 	S      string // init: the malformed-answer scenario (malformed.go) the peer plays; E is then the model's environment for it
 	Framed bool   // init with a scenario, streamable: the fake frames its answer as an SSE stream
 	K      string // req: ListTools | CallTool | ListPrompts | GetPrompt | ListResources | ReadResource
-	Fail  bool   // req: the peer answers with a JSON-RPC error
-	Fault bool   // close, filled in by the run: the transport's close() reported an error (what Close returned says so)
+	Fail   bool   // req: the peer answers with a JSON-RPC error
+	Fault  bool   // close, filled in by the run: the transport's close() reported an error (what Close returned says so)
 }
 
 func (o cOp) json() map[string]any {
@@ -103,6 +103,7 @@ type histResult struct {
 	closeRaces int
 	// Close under a fault environment: how many, and how many of them made the transport's close() report an error
 	closeEnvs, closeFaults int
+	strayReplies           int // stdio: replies of the transport to a malformed line it took for a request
 }
 
 type peers struct {
@@ -346,12 +347,32 @@ func runClientHistory(p *peers, kind string, ops []cOp, idx int) histResult {
 			if wire == nil {
 				wire = []string{}
 			}
+			if op.T == "init" && op.S == "neither" {
+				// an answer with neither result nor error reads as a request without method: the stdio transport replies to it with an
+				// error message of its own ("answer" in the child's log).  Not an operation of the client; counted, not compared.
+				kept := []string{}
+				for _, m := range wire {
+					if m == "answer" {
+						res.strayReplies++
+					} else {
+						kept = append(kept, m)
+					}
+				}
+				wire = kept
+			}
 		}
 		state := string(conn.GetState())
 		res.outs = append(res.outs, stepObs{Res: r, State: state, Wire: wire})
 		res.sends += len(wire)
 		// ---- the statement, applied to the observations
 		recv := recvOf(kind)
+		if op.T == "init" && (op.E == "rpcErr" || (op.S != "" && scenarioByName[op.S].Refusal)) {
+			for _, m := range wire {
+				if m == "notifications/initialized" {
+					violate("lifecycle:initialized-notification-after-refusal:"+recv, "the client sends notifications/initialized although the peer refused the handshake (its answer carries a JSON-RPC error object)", i, map[string]any{"result": r, "wire": wire, "scenario": op.peerName()})
+				}
+			}
+		}
 		switch op.T {
 		case "init":
 			if should {
@@ -361,15 +382,18 @@ func runClientHistory(p *peers, kind string, ops []cOp, idx int) histResult {
 				res.refused = true
 			} else {
 				switch {
+				case r == "ok" && op.S != "" && scenarioByName[op.S].Refusal:
+					violate("lifecycle:handshake-succeeds-despite-failure:"+recv+":"+op.S, "Initialize reports success although the peer refused the handshake: its answer carries a JSON-RPC error object (whatever else it carries)", i, map[string]any{"wire": wire, "answer": scenarioByName[op.S].Body})
+					should = true
 				case r == "ok" && op.E != "ok":
-					violate("lifecycle:handshake-succeeds-despite-failure:"+recv+":"+op.E, "Initialize reports success although a stage of the handshake failed", i, map[string]any{"wire": wire})
+					violate("lifecycle:handshake-succeeds-despite-failure:"+recv+":"+op.peerName(), "Initialize reports success although a stage of the handshake failed", i, map[string]any{"wire": wire})
 					should = true
 				case r == "ok":
 					should = true
 					res.handshake = true
 				case r == "alreadyInitialized":
 					violate("lifecycle:initialize-refused-while-uninitialized:"+recv, "Initialize refused as already initialized although no handshake is in force", i, fmt.Sprint(e))
-				case op.E == "ok" && !(transportClosed && kind != "streamable"):
+				case op.E == "ok" && op.S == "" && !(transportClosed && kind != "streamable"):
 					// network and peer behave, nothing closed the transport: a fresh handshake must work, whatever earlier failed ones left behind
 					violate("lifecycle:handshake-fails-in-benign-environment:"+kind, "Initialize fails although network and server behave and the client was not closed (after earlier failed handshakes a fresh one must work)", i, map[string]any{"error": fmt.Sprint(e), "wire": wire})
 				}
